@@ -82,7 +82,9 @@ func (v *VerifPolicyConnections) SetAllowed(c *common.ConnectionSet) {
 func (v *VerifPolicyConnections) UpdateWithRuleConns(c *common.ConnectionSet, action string, banp bool) error {
 	return v.pc.UpdateWithRuleConns(c, action, banp)
 }
-func (v *VerifPolicyConnections) CollectANPConns(o *VerifPolicyConnections) { v.pc.CollectANPConns(o.pc) }
+func (v *VerifPolicyConnections) CollectANPConns(o *VerifPolicyConnections) {
+	v.pc.CollectANPConns(o.pc)
+}
 func (v *VerifPolicyConnections) CollectAllowedConnsFromNetpols(o *VerifPolicyConnections) {
 	v.pc.CollectAllowedConnsFromNetpols(o.pc)
 }
